@@ -44,8 +44,32 @@ pub mod tokio {
     pub mod time {
         pub use super::super::MissedTickBehavior;
         pub use super::super::vx_interval as interval;
+        pub use super::super::timeout;
+        pub use super::super::vx_sleep as sleep;
+    }
+    pub mod io {
+        pub use super::super::{Sink, vx_sink as sink, vx_copy as copy};
     }
 }
+/// C14: a wait on the client's socket made by the listener task itself (not through `Connection::listen`, which
+/// Listener::handle runs under `timeout(connection_timeout, ..)`) is bounded by nothing: it is allowed only where the
+/// code is known to be under the connection deadline. The predicate is uninterpreted and nothing establishes it in
+/// `Listener::handle`, so such a wait there is an unprovable obligation.
+pub uninterp spec fn vx_under_deadline() -> bool;
+pub struct Sink {}
+pub fn vx_sink() -> Sink { Sink {} }
+#[verifier::external_body]
+pub fn vx_copy(reader: &mut ProxiedStream, writer: &mut Sink) -> (r: Result<u64, IoError>)
+    requires
+        vx_under_deadline(), // @cl:C14.socket_wait.under_connection_deadline.copy
+    ensures final(reader).header == old(reader).header, final(reader).shut == old(reader).shut
+{ unimplemented!() }
+/// tokio::time::sleep: a wait the client cannot end; inside the listener task it extends the life of the connection
+#[verifier::external_body]
+pub fn vx_sleep(duration: Duration)
+    requires
+        vx_under_deadline(), // @cl:C14.socket_wait.under_connection_deadline.sleep
+{ unimplemented!() }
 impl Uuid { #[verifier::external_body] pub fn new_v4() -> Uuid { unimplemented!() } }
 #[verifier::external_body] pub fn vx_trace_id_string() -> String { unimplemented!() }
 /// which arm of a `tokio::select!` completes first: unconstrained (R8)
@@ -213,6 +237,31 @@ impl ProxiedStream {
     pub fn proxy_header(&self) -> (r: &ProxyHeader) ensures *r == self.header { &self.header }
     #[verifier::external_body]
     pub fn shutdown(&mut self) -> (r: Result<(), IoError>) ensures final(self).shut@, final(self).header == old(self).header { unimplemented!() }
+    // AsyncReadExt on the socket itself: waits for the client (C14, see vx_under_deadline)
+    #[verifier::external_body]
+    pub fn read(&mut self, buf: &mut [u8]) -> (r: Result<usize, IoError>)
+        requires
+            vx_under_deadline(), // @cl:C14.socket_wait.under_connection_deadline.read
+        ensures final(self).header == old(self).header, final(self).shut == old(self).shut
+    { unimplemented!() }
+    #[verifier::external_body]
+    pub fn read_exact(&mut self, buf: &mut [u8]) -> (r: Result<usize, IoError>)
+        requires
+            vx_under_deadline(), // @cl:C14.socket_wait.under_connection_deadline.read_exact
+        ensures final(self).header == old(self).header, final(self).shut == old(self).shut
+    { unimplemented!() }
+    #[verifier::external_body]
+    pub fn read_to_end(&mut self, buf: &mut Vec<u8>) -> (r: Result<usize, IoError>)
+        requires
+            vx_under_deadline(), // @cl:C14.socket_wait.under_connection_deadline.read_to_end
+        ensures final(self).header == old(self).header, final(self).shut == old(self).shut
+    { unimplemented!() }
+    #[verifier::external_body]
+    pub fn read_u8(&mut self) -> (r: Result<u8, IoError>)
+        requires
+            vx_under_deadline(), // @cl:C14.socket_wait.under_connection_deadline.read_u8
+        ensures final(self).header == old(self).header, final(self).shut == old(self).shut
+    { unimplemented!() }
 }
 /// `RateLimiter<IpAddr>`: the keys it was asked about, in order; its verdict is an uninterpreted function of that history
 /// (the limiter itself is unit U8)
